@@ -470,12 +470,12 @@ class WorkflowConductor(object):
         if self.get_workflow_status() not in statuses.COMPLETED_STATUSES:
             raise exc.WorkflowContextError("Workflow is not in completed status.")
 
-        wf_term_ctx = {}
-
         term_tasks = self.workflow_state.get_terminal_tasks()
 
+        # If no task is terminal (i.e. the workflow is canceled while it is paused), then
+        # the workflow ends with the context it started with, if that has been established.
         if not term_tasks:
-            return wf_term_ctx
+            return self.get_workflow_initial_context() if self.workflow_state.contexts else {}
 
         _, first_term_task = term_tasks[0:1][0]
         other_term_tasks = term_tasks[1:]
